@@ -864,10 +864,9 @@ pub mod verif_hooks {
         PayForPriceImpactDiff(&'a T),
     }
 
-    /// Run the given steps of the real collateral processor, in order, from the given
-    /// intermediate amounts.
+    /// Run one step of the real collateral processor from the given intermediate amounts.
     #[allow(clippy::too_many_arguments)]
-    pub fn verif_process<M, const DECIMALS: u8, const N: usize>(
+    pub fn verif_process<M, const DECIMALS: u8>(
         market: &mut M,
         is_output_token_long: bool,
         is_pnl_token_long: bool,
@@ -877,7 +876,7 @@ pub mod verif_hooks {
         output_amount: M::Num,
         secondary_output_amount: M::Num,
         is_insolvent_close_allowed: bool,
-        steps: [VerifStep<'_, M::Num>; N],
+        step: VerifStep<'_, M::Num>,
     ) -> crate::Result<VerifProcessResult<M::Num>>
     where
         M: PerpMarketMut<DECIMALS>,
@@ -894,29 +893,27 @@ pub mod verif_hooks {
             is_insolvent_close_allowed,
         );
         let result = processor.process(|mut ctx| {
-            for step in steps {
-                match step {
-                    VerifStep::AddPnlIfPositive(v) => {
-                        ctx.add_pnl_if_positive(v)?;
-                    }
-                    VerifStep::AddPriceImpactIfPositive(v) => {
-                        ctx.add_price_impact_if_positive(v)?;
-                    }
-                    VerifStep::PayForFundingFees(v) => {
-                        ctx.pay_for_funding_fees(v)?;
-                    }
-                    VerifStep::PayForPnlIfNegative(v) => {
-                        ctx.pay_for_pnl_if_negative(v)?;
-                    }
-                    VerifStep::PayForFeesExcludingFunding(v) => {
-                        ctx.pay_for_fees_excluding_funding(v)?;
-                    }
-                    VerifStep::PayForPriceImpactIfNegative(v) => {
-                        ctx.pay_for_price_impact_if_negative(v)?;
-                    }
-                    VerifStep::PayForPriceImpactDiff(v) => {
-                        ctx.pay_for_price_impact_diff(v)?;
-                    }
+            match step {
+                VerifStep::AddPnlIfPositive(v) => {
+                    ctx.add_pnl_if_positive(v)?;
+                }
+                VerifStep::AddPriceImpactIfPositive(v) => {
+                    ctx.add_price_impact_if_positive(v)?;
+                }
+                VerifStep::PayForFundingFees(v) => {
+                    ctx.pay_for_funding_fees(v)?;
+                }
+                VerifStep::PayForPnlIfNegative(v) => {
+                    ctx.pay_for_pnl_if_negative(v)?;
+                }
+                VerifStep::PayForFeesExcludingFunding(v) => {
+                    ctx.pay_for_fees_excluding_funding(v)?;
+                }
+                VerifStep::PayForPriceImpactIfNegative(v) => {
+                    ctx.pay_for_price_impact_if_negative(v)?;
+                }
+                VerifStep::PayForPriceImpactDiff(v) => {
+                    ctx.pay_for_price_impact_diff(v)?;
                 }
             }
             Ok(())
